@@ -103,6 +103,10 @@ type vWorld struct {
 	echoLn   net.Listener
 	emu      sync.Mutex
 	echoBufs []*bytes.Buffer
+	// application data shorter than 8 bytes cannot identify its covert connection by content alone (two cases can carry
+	// the same few bytes): such cases are matched by exact content and accounted for per distinct content
+	wantSeen    map[string]int // cases of this world carrying that (short) data
+	wantMatched map[string]int // ... of which the station matched
 }
 
 func (w *vWorld) startEcho(t testing.TB) {
@@ -151,6 +155,21 @@ func (w *vWorld) echoFor(tag []byte) (n int, data []byte) {
 		if bytes.HasPrefix(b.Bytes(), tag) {
 			n++
 			data = append([]byte(nil), b.Bytes()...)
+		}
+	}
+	return
+}
+
+// echoExact counts the covert connections that received exactly want (or, while bytes are still in flight, a non-empty prefix of it)
+func (w *vWorld) echoExact(want []byte) (n int, data []byte) {
+	w.emu.Lock()
+	defer w.emu.Unlock()
+	for _, b := range w.echoBufs {
+		if b.Len() > 0 && bytes.HasPrefix(want, b.Bytes()) {
+			n++
+			if len(data) < b.Len() {
+				data = append([]byte(nil), b.Bytes()...)
+			}
 		}
 	}
 	return
@@ -534,12 +553,34 @@ func (w *vWorld) runCase(cs *vCase) map[string]any {
 		}
 		var n int
 		var data []byte
+		short := len(want) < 8
 		for i := 0; i < 100; i++ {
-			n, data = w.echoFor(tag)
+			if short {
+				n, data = w.echoExact(want)
+			} else {
+				n, data = w.echoFor(tag)
+			}
 			if matched == "" || (n > 0 && len(data) >= len(want)) {
 				break
 			}
 			time.Sleep(5 * time.Millisecond)
+		}
+		if short {
+			w.emu.Lock()
+			shared := w.wantSeen[string(want)]
+			if matched != "" {
+				w.wantMatched[string(want)]++
+			}
+			w.emu.Unlock()
+			if shared > 1 && n > 1 {
+				// several cases of this world carry these very bytes: which connection is whose cannot be told here; the
+				// exact count is checked per distinct content when the batch ends (record "covert_group")
+				fin["covert_conns_raw"] = n
+				n = 1
+			}
+			if n == 0 {
+				_, data = w.echoFor(want) // nothing equal: show what a connection starting like it received, if any
+			}
 		}
 		fin["covert_conns"] = n
 		fin["fwd_n"] = len(data)
@@ -583,6 +624,19 @@ func TestVerifClassify(t *testing.T) {
 		if len(batch) == 0 {
 			return
 		}
+		shortWants := map[string]bool{}
+		w.emu.Lock()
+		if w.wantSeen == nil {
+			w.wantSeen, w.wantMatched = map[string]int{}, map[string]int{}
+		}
+		for _, cs := range batch {
+			if n := cs.Stream.Early + cs.Stream.Late; n > 0 && n < 8 {
+				k := string(vCaseData(cs.ID, n))
+				w.wantSeen[k]++
+				shortWants[k] = true
+			}
+		}
+		w.emu.Unlock()
 		sem := make(chan struct{}, par)
 		var wg sync.WaitGroup
 		for _, cs := range batch {
@@ -596,6 +650,16 @@ func TestVerifClassify(t *testing.T) {
 			}()
 		}
 		wg.Wait()
+		// short application data shared by several cases: as many covert connections received exactly it as cases matched
+		for k := range shortWants {
+			w.emu.Lock()
+			seen, m := w.wantSeen[k], w.wantMatched[k]
+			w.emu.Unlock()
+			if seen > 1 {
+				n, _ := w.echoExact([]byte(k))
+				out.Emit(map[string]any{"kind": "covert_group", "data": hex.EncodeToString([]byte(k)), "cases": seen, "matched": m, "conns": n})
+			}
+		}
 		// secondary invariant: the connection-statistics state machine balances once every handler has returned
 		c, c6 := &w.cm.connStats.ipv4, &w.cm.connStats.ipv6
 		ld := func(p, q *int64) int64 { return atomic.LoadInt64(p) + atomic.LoadInt64(q) } // IPv4 + IPv6 phantoms
